@@ -66,6 +66,13 @@ class EncoderWorld(World):
                 ops.append({"op": "set_refrac", "k": k2})
             if ro.random() < 0.15:
                 ops.append({"op": "set_dt", "v": ro.choice(DTS + [dt, dt])})
+            c2 = stream(seed, f"cfgops{len(ops)}")
+            if c2.random() < 0.15:
+                ops.append({"op": "set_freq", "v": c2.choice([10.0, 40.0, 100.0, 200.0, 400.0])})
+            if kind == "refrac" and c2.random() < 0.12:
+                ops.append({"op": "set_compensated", "v": c2.random() < 0.5})
+            if c2.random() < 0.12:
+                ops.append({"op": "set_generator"})
         return {"config": cfg, "ops": ops}
 
     def execute(self, desc, ctx):
@@ -74,7 +81,8 @@ class EncoderWorld(World):
         cfg = desc["config"]
         kind, dt, shape = cfg["kind"], cfg["dt"], cfg["shape"]
         st = {"steps": cfg["steps"], "k": cfg["refrac_k"], "dt": dt, "refrac_ms": None if cfg["refrac_k"] is None else cfg["refrac_k"] * dt}
-        gen = torch.Generator()
+        st["freq"], st["compensate"], st["gen"] = cfg["freq"], cfg["compensate"], torch.Generator()
+        gen = st["gen"]
         refrac = None if st["k"] is None else st["k"] * dt
         with ctx.impl("encoder()", {"kind": kind}):
             if kind == "refrac":
@@ -86,7 +94,7 @@ class EncoderWorld(World):
         ctx.log("config", kind, dt, st["steps"], cfg["freq"], st["k"], cfg["compensate"], shape)
 
         def facts(**kw):
-            f = {"kind": kind, "steps": st["steps"], "refrac_k": st["k"], "compensate": cfg["compensate"], "dt": st["dt"]}
+            f = {"kind": kind, "steps": st["steps"], "refrac_k": st["k"], "compensate": st["compensate"], "dt": st["dt"]}
             f.update(kw)
             return f
 
@@ -127,7 +135,7 @@ class EncoderWorld(World):
                                  f"{where}: element {e} spikes at steps {a} and {b}: gap {b - a} < refractory {g} steps")
             if bool((xs == 1).any()):
                 ctx.probe("full_intensity_element")
-            ctx.state((kind, st["steps"], st["k"], cfg["compensate"], mode, bool(zero.any()), min(nsp, 20)))
+            ctx.state((kind, st["steps"], st["k"], st["compensate"], mode, bool(zero.any()), min(nsp, 20)))
 
         def retained(kept, outs, where, mode):
             ctx.judged += 1
@@ -161,7 +169,7 @@ class EncoderWorld(World):
                 if kind != "refrac":
                     continue
                 k = op["k"]
-                if k is not None and cfg["freq"] * k * st["dt"] >= 900:
+                if k is not None and st["freq"] * k * st["dt"] >= 900:
                     continue
                 with ctx.impl("refrac setter"):
                     enc.refrac = None if k is None else k * st["dt"]
@@ -169,11 +177,34 @@ class EncoderWorld(World):
                 st["refrac_ms"] = None if k is None else k * st["dt"]
                 ctx.log("set_refrac", k)
                 continue
+            if op["op"] == "set_freq":
+                eff = (st["refrac_ms"] if st["refrac_ms"] is not None else st["dt"]) if kind == "refrac" else 0.0
+                if op["v"] * eff >= 900:
+                    continue
+                with ctx.impl("frequency setter"):
+                    enc.frequency = op["v"]
+                st["freq"] = op["v"]
+                ctx.log("set_freq", op["v"])
+                ctx.fault("frequency_reassigned")
+                continue
+            if op["op"] == "set_compensated":
+                with ctx.impl("compensated setter"):
+                    enc.compensated = op["v"]
+                st["compensate"] = op["v"]
+                ctx.log("set_compensated", op["v"])
+                continue
+            if op["op"] == "set_generator":
+                st["gen"] = torch.Generator()
+                with ctx.impl("generator setter"):
+                    enc.generator = st["gen"]
+                ctx.log("set_generator")
+                ctx.fault("generator_replaced")
+                continue
             if op["op"] == "set_dt":
                 v = op["v"]
-                if kind == "refrac" and st["refrac_ms"] is not None and (cfg["freq"] * st["refrac_ms"] >= 900):
+                if kind == "refrac" and st["refrac_ms"] is not None and (st["freq"] * st["refrac_ms"] >= 900):
                     continue
-                if kind == "refrac" and st["refrac_ms"] is None and cfg["freq"] * v >= 900:
+                if kind == "refrac" and st["refrac_ms"] is None and st["freq"] * v >= 900:
                     continue
                 with ctx.impl("dt setter"):
                     enc.dt = v
@@ -191,7 +222,7 @@ class EncoderWorld(World):
             if mode == "offline":
                 res = []
                 for rep in range(2):
-                    gen.manual_seed(op["gseed"])
+                    st["gen"].manual_seed(op["gseed"])
                     with ctx.impl("encode offline", facts(mode=mode)) as reg:
                         out = enc(x.clone())
                     if reg.waived:
@@ -208,7 +239,7 @@ class EncoderWorld(World):
             elif mode == "online":
                 res = []
                 for rep in range(2):
-                    gen.manual_seed(op["gseed"])
+                    st["gen"].manual_seed(op["gseed"])
                     with ctx.impl("encode online", facts(mode=mode)) as reg:
                         outs = collect_online(enc(x.clone(), online=True), "online", mode)
                     if reg.waived:
@@ -230,7 +261,7 @@ class EncoderWorld(World):
                 sched = [s for s in op["schedule"]]
                 res = []
                 for rep in range(2):
-                    gen.manual_seed(op["gseed"])
+                    st["gen"].manual_seed(op["gseed"])
                     outs = ([], [])
                     kept = ([], [])
                     with ctx.impl("encode interleaved", facts(mode=mode)) as reg:
